@@ -95,3 +95,52 @@ def check(idx, rep, rid, flags):
                   f"{setter} called with {called.get(setter)}", K.where(us, us.node))
     rep.stats["table_rows"] = rep.stats.get("table_rows", 0) + rows
     rep.stats["exhaustive"] = True
+
+
+def update_sequence(idx, rep, rid, flags=("print", "raise", "match", "stop", "fail")):
+    """ModeController updates the modes of one csvpath more than once (CsvPaths._load_csvpath and then parse()): update() must be a
+    function of the metadata — after any number of updates the overrides are what the csvpath's own validation-mode comment says (all
+    None without one) and the metadata is what the author wrote.  ValidationMode.update is interpreted 1..3 times in sequence on a model
+    controller."""
+    from sa.absint import Obj
+    fu = idx.method("ValidationMode", "update")
+    rep.analysed(fu)
+    consts = class_consts(idx, "ValidationMode")
+    bad = None
+    rows = 0
+    for comment in (None, "no-print, fail", "match", "raise, no-stop"):
+        meta0 = {} if comment is None else {"validation-mode": comment}
+
+        def cget(i, c, r, a, k):
+            return i.store["META"].get(a[0])
+
+        def cset(i, c, r, a, k):
+            i.store["META"][a[0]] = a[1]
+
+        def program(it):
+            snaps = []
+            for _ in range(3):
+                it.call_function(fu, {}, "self")
+                snaps.append(({f: it.store.get("self." + FLAGS[f][1]) for f in flags}, dict(it.store["META"])))
+            return snaps
+
+        it = Interp(idx, types={"self": "ValidationMode"}, inline_all={"ValidationMode"}, inline={"ValidationMode.value"}, unknown_calls="residual",
+                    handlers={"self.controller.get": cget, "self.controller.set": cset})
+        st = dict(consts)
+        st.update({"META": dict(meta0), "self._validation_mode": None, "self.controller": Obj("self.controller")})
+        for f in flags:
+            st["self." + FLAGS[f][1]] = None
+        ps = it.run_program(program, st)
+        rows += 1
+        if len(ps) != 1 or ps[0].result[0] != "return":
+            bad = bad or f"comment {comment!r}: update() is not deterministic on a concrete metadata ({[p.result for p in ps][:2]})"
+            continue
+        toks = [] if not comment else [t.strip() for t in comment.split(",")]
+        want = {f: (False if f"no-{f}" in toks else (True if f in toks else FLAGS[f][2])) for f in flags}
+        for n, (got, meta) in enumerate(ps[0].result[1], 1):
+            if got != want:
+                bad = bad or (f"validation-mode comment {comment!r}: after update #{n} the overrides are {got}, documented {want} "
+                              "(the second update happens for every member of a named-paths group)")
+            if meta != meta0:
+                bad = bad or f"validation-mode comment {comment!r}: update #{n} rewrites the csvpath's metadata to {meta} (the author wrote {meta0})"
+    rep.check(bad is None, rid, f"{fu.file}::ValidationMode.update is a function of the metadata", bad or f"{rows} comments x 3 updates", K.where(fu, fu.node))
